@@ -95,7 +95,7 @@ KERNELS += [
     K("K_vwo_reserve", CLS + r"reserve\(const int new_capacity_min_index, const int new_capacity_max_index\)",
       "void K_vwo_reserve(struct VWO* self, const int new_capacity_min_index, const int new_capacity_max_index)",
       rules=[(r"shared_ptr<T\[\]> (\w+)\(new T\[(\w+)\]\);", r"T* \1 = K_new_T(\2);", 1),
-             (r"std::copy\(", "K_std_copy(", 1), (r"\.get\(\)", "", 2), (r"std::move\((\w+)\)", r"\1", 1),
+             (r"std::copy\(([^;]*)\);", r"K_std_copy(\1, GK_K_vwo_reserve);", 1), (r"\.get\(\)", "", 2), (r"std::move\((\w+)\)", r"\1", 1),
              (r"\b0U\b", "0U", 1)],
       cxx="VectorWithOffset<T>::reserve(int,int)"),
     K("K_vwo_resize", CLS + r"resize\(const int min_index, const int max_index\)",
@@ -103,7 +103,7 @@ KERNELS += [
     K("K_vwo_grow", CLS + r"grow\(const int min_index, const int max_index\)",
       "void K_vwo_grow(struct VWO* self, const int min_index, const int max_index)", cxx="VectorWithOffset<T>::grow(int,int)"),
     K("K_vwo_assign", CLS + r"operator=\(const VectorWithOffset& il\)", "struct VWO* K_vwo_assign(struct VWO* self, const struct VWO* il)",
-      rules=[(r"this == &il", "self == il", 1), (r"std::copy\(", "K_std_copy(", 1)], cxx="VectorWithOffset<T>::operator="),
+      rules=[(r"this == &il", "self == il", 1), (r"std::copy\(([^;]*)\);", r"K_std_copy(\1, GK_K_vwo_assign);", 1)], cxx="VectorWithOffset<T>::operator="),
     K("K_arr1_resize", r"Array<1, elemT>::resize\(const int min_index, const int max_index\)",
       "void K_arr1_resize(struct VWO* self, const int min_index, const int max_index)", file="src/include/stir/Array.inl",
       rules=[(r"this->num\[([^\]]+)\]", r"VWO_AT(self, \1)", 3), (r"assign\((VWO_AT\(self, i\)), 0\);", r"\1 = 0;", 3),
@@ -152,8 +152,8 @@ ENFORCE = [
     ("K_vwo_plus_assign", [], True), ("K_vwo_minus_assign", [], True), ("K_vwo_mult_assign", [], True),
     ("K_vwo_div_assign", [], True),
     ("K_vwo_init0", [], False), ("K_vwo__destruct_and_deallocate", [], False), ("K_vwo_recycle", [], False),
-    ("K_vwo_reserve", ["K_std_copy"], False), ("K_vwo_resize", ["K_std_copy"], False), ("K_vwo_grow", ["K_std_copy"], False),
-    ("K_vwo_assign", ["K_std_copy"], False), ("K_arr1_resize", ["K_std_copy"], True),
+    ("K_vwo_reserve", ["K_std_copy"], False), ("K_vwo_resize", ["K_vwo_reserve"], False), ("K_vwo_grow", ["K_vwo_resize"], False),
+    ("K_vwo_assign", ["K_std_copy"], False), ("K_arr1_resize", ["K_vwo_resize"], True),
 ]
 
 
@@ -176,7 +176,7 @@ def jobs(tier, gen_dir):
                 # 1-byte elements: the container logic is independent of sizeof(T) (scaling is done by the compiler);
                 # keeps the offset arithmetic in the contracts division-free
                 tt = "unsigned char"
-                shards = int(os.environ.get("C11_SHARDS", "12"))
+                shards = int(os.environ.get("C11_SHARDS", "6"))
                 if t != types[0]:
                     continue
             if kern in ("K_vwo_mult_assign", "K_vwo_div_assign"):
@@ -194,7 +194,8 @@ def jobs(tier, gen_dir):
                 defs["T_IS_FLOAT"] = None
             out.append(Job("c11/%s/%s" % (tt.replace(" ", "_"), kern), HARNESS, "h_" + kern, enforce=kern, replace=repl,
                            loop_contracts=lc, defines=defs, flags=checks, timeout=300, params={"T": tt}, kernels=[kern],
-                           min_obligations=3, no_base_flags=True, replay="vwo", shards=shards))
+                           min_obligations=3, no_base_flags=True, replay="vwo", shards=shards,
+                           backend=os.environ.get("C11_BACKEND", "kissat") if kern in TIER_B else "sat"))
             if kern.endswith("_assign") and kern != "K_vwo_assign":
                 d2 = dict(defs)
                 d2["SELF_EMPTY"] = None
